@@ -496,3 +496,45 @@ def lock_order(ctx, fx, file, rule="R-LOCKORDER", self_ty_filter=None):
         if (b, a) not in edges:
             ctx.obligation(rule, file, "%s -> %s" % (a.rsplit("::", 1)[-1], b.rsplit("::", 1)[-1]), True, nontrivial=True)
     return edges
+
+
+# ---------------------------------------------------------------- R-ATOM.lms (load-modify-store)
+def load_modify_store(ctx, fns, rule="R-ATOM.lms"):
+    """an atomic that is updated somewhere by `store(f(load()))` is only safe if every other
+    modification of the same atomic holds a lock in common with it"""
+    mods = {}     # field -> [(fn, block, op, locks held, is_lms, line)]
+    for fn in fns:
+        sites = atomic_sites(fn)
+        guards = guard_locals(fn)
+        for b, op, fld, c in sites:
+            if not fld or op not in ATOMIC_RMW:
+                continue
+            held = {v for v in guards_live_at(fn, term_loc(fn, b), guards).values() if v}
+            is_lms = False
+            if op == "store" and len(c["a"]) >= 2:
+                l = op_local(c["a"][1])
+                if l is not None:
+                    locs, ss = fn.backslice([l], max_nodes=60)
+                    for loc, kind, pl in ss:
+                        if kind == "call" and is_atomic_call(pl) and pl["f"].endswith("::load") and \
+                                recv_field(fn, pl["a"][0]) == fld:
+                            is_lms = True
+            mods.setdefault(fld, []).append((fn, b, op, held, is_lms, c["ln"]))
+    n = 0
+    for fld, ms in mods.items():
+        lms = [m for m in ms if m[4]]
+        for m in lms:
+            n += 1
+            others = [o for o in ms if o is not m]
+            bad = [o for o in others if not (o[3] & m[3])]
+            ok = not bad
+            ctx.obligation(rule, m[0].id, "store(load+..) on %s" % fld.rsplit("::", 1)[-1], ok,
+                           sample={"fn": m[0].id, "atomic": fld, "line": m[5], "locks_held": sorted(m[3]),
+                                   "unsynchronised_writers": [(o[0].id.rsplit("::", 1)[-1], o[2], o[5]) for o in bad][:4]})
+            if not ok:
+                o = bad[0]
+                ctx.violation(rule, m[0].id, "non-atomic increment of %s" % fld.rsplit("::", 1)[-1],
+                              "%s is updated by a separate load and store (line %d) while %s performs %s on it (line %d) without "
+                              "a common lock: an update that lands between the load and the store is lost"
+                              % (fld, m[5], o[0].id.rsplit("::", 1)[-1], o[2], o[5]), m[0].file, m[5])
+    return n
